@@ -24,6 +24,10 @@ def body_of(kind, n):
         return b''
     if kind == 'text':
         return ('4' + 'a' * (n - 1)).encode()
+    if kind == 'utf8':
+        # n bytes, about half as many characters: two-byte characters after the type digit (the limit is one of bytes)
+        k = (n - 1) // 2
+        return ('4' + '\u00e9' * k + 'a' * (n - 1 - 2 * k)).encode('utf-8')
     # base64: 'b' + 4k chars; pad with a leading text packet when needed
     k = (n - 1) // 4
     raw = b'\x01' * (3 * k)
@@ -366,7 +370,7 @@ def jobs_for(ctx):
                 if n > 3000000:
                     continue
                 for declared in declared_for(n, L):
-                    for kind in ('text', 'b64'):
+                    for kind in ('text', 'b64') + (('utf8',) if L >= 5 and n >= 4 else ()):
                         for chunks in (('one', 'bytes') if impl == 'async' else ('one', 'short') if declared > 1 and n > 1 else ('one',)):
                             for poll in (True,) if ctx.quick else (True, False):
                                 jobs.append(('post', impl, {'L': L, 'n': n, 'declared': declared, 'kind': kind,
